@@ -34,7 +34,9 @@ The medium
   activated target that is waiting for a command gets nfc.clf.BrokenLinkError (as rcs380/pn53x report).
 * Every frame is appended to `air.log` as a `Frame` (index, direction, bit rate, bytes, length, fate,
   heard, virtual time).  `air.on_frame` (callable) is invoked under the medium lock for each frame, after
-  the fate is decided and before the receiver runs: the place for recorders and monitors.
+  the fate is decided and before the receiver runs: the place for recorders and monitors.  `air.on_wait`
+  (callable(port, timeout, activated)) is invoked, also under the lock, whenever a port starts listening for a
+  frame: the timeouts the stacks really ask their drivers for.
 
 Fate scripts
 ------------
@@ -142,6 +144,7 @@ class Air(object):
         self.log = []
         self.fates = fates
         self.on_frame = None
+        self.on_wait = None         # callable(port name, timeout, activated): a port starts listening for a frame
         self.stall_timeout = stall_timeout
         self._threads = {}          # thread ident -> port (for sleep())
         self.devices = {n: SimDevice(self, n) for n in names}
@@ -293,6 +296,8 @@ class Air(object):
                 self._emit(p, data, brty, kind)
             if timeout is not None and timeout <= 0:
                 return None
+            if self.on_wait is not None:
+                self.on_wait(name, timeout, activated)
             p.state = WAITING
             p.listening = True
             p.activated = activated
